@@ -145,6 +145,20 @@ def gen_forms(args):
                         return core.guarded(emd.cycles.get_cycle_stat, form, x, mode=mode, func=np.sum)
                     return core.guarded(emd.cycles.get_control_points, x, form, mode=mode)
                 ref = run(C)
+                if fn_name == 'get_cycle_stat' and mode == 'augmented':
+                    # the value itself (the forms below only have to AGREE): the supplied function over the samples from the
+                    # first sample beyond 3/2 pi of the previous cycle to the end of the cycle; missing for the first cycle.
+                    # (Each cycle here is a monotone ramp, so both definitions of the augmented cycle coincide.)
+                    cv = C.cycle_vect
+                    want = [np.nan]
+                    for c in range(1, int(C.ncycles)):
+                        prev = np.where(cv == c - 1)[0]
+                        late = prev[ip[prev] > 1.5 * np.pi]
+                        stop = np.where(cv == c)[0][-1] + 1
+                        want.append(float(np.sum(x[late[0]:stop])) if len(late) else np.nan)
+                    ok = (not isinstance(ref, str)) and np.allclose(np.asarray(ref, float), np.array(want), rtol=1e-12, atol=1e-12, equal_nan=True)
+                    recs.append({'kind': 'forms', 'fn': 'get_cycle_stat', 'mode': mode, 'form': 'value', 'ref_raised': int(isinstance(ref, str)),
+                                 'same': int(ok), 'seed': seed, 'ncycles': int(C.ncycles)})
                 forms = {'iterator_default': C.iterate(), 'iterator_same_mode': C.iterate(mode=mode), 'iterator_other_mode': C.iterate(mode=other)}
                 if mode == 'cycle':
                     forms['label_vector'] = C.cycle_vect.copy()
